@@ -46,6 +46,10 @@ var validNames = []string{
 // nothing that would itself break the X-Matrix header syntax (no quote,
 // comma or backslash).
 var invalidNames = []string{
+	// non-ASCII letters, among them ones whose code point ends in the byte of
+	// an ASCII letter, digit, dot or hyphen (U+0430 -> '0', U+0161 -> 'a',
+	// U+212E -> '.', U+4E2D -> '-', U+0131 -> '1'): look-alikes of valid names
+	"ex\u0430mple.org", "\u0161erver.example", "example\u212eorg", "\u4e2d.example", "\u0131.example:8448", "m\u00fcnchen.example",
 	"[fe80::1%eth0]",
 	"[fe80::1%eth0]:8448",
 	"[::1%lo]",
